@@ -919,6 +919,8 @@ val non_comparable : envcfg -> expr -> jperr option
 
 val check_args : envcfg -> ty3 list -> expr list -> bool
 
+val grouped_ok : ty3 list -> bool list -> bool
+
 val p_query : envcfg -> nat -> bool -> stream -> seg list pres
 
 val parse_fuel : token list -> nat
